@@ -10,6 +10,6 @@ cp /repo/odxtools/version.py "$D/odxtools/version.py" 2>/dev/null
 if ! git -C "$D" apply "$PATCH"; then echo "PATCH DOES NOT APPLY"; git -C /repo worktree remove --force "$D"; exit 2; fi
 echo "== test suite with the change:"; (cd "$D" && timeout 900 /venv/bin/python -m pytest -q -p no:cacheprovider 2>&1 | tail -1)
 echo "== $PROP quick check against the changed tree:"
-(cd "$HERE" && timeout 1500 bin/verif check "$PROP" --tier quick --repo "$D" --no-evidence "$@" 2>&1 | grep -v '^$' | cut -c1-400 | tail -12)
+(cd "$HERE" && timeout 1500 bin/verif check "$PROP" --tier quick --repo "$D" --no-evidence "$@" 2>&1 | grep -v "^$" | cut -c1-400)
 echo "== exit status: $?"
 git -C /repo worktree remove --force "$D"
